@@ -102,8 +102,14 @@ theorem natDigits_shape (n : Nat) : ∃ c tl, natDigits n = c :: tl ∧ Machine.
 
 omit hext in
 /-- what may follow a value: a separator or closing bracket of the enclosing container, the closing quote of a map key
-    holding a number (`MapKey`'s numeric methods), or nothing (top level) -/
-def SepOK (rest : Bytes) : Prop := rest = [] ∨ ∃ c tl, rest = c :: tl ∧ (c = 0x2c ∨ c = 0x5d ∨ c = 0x7d ∨ c = 0x22)
+    holding a number (`MapKey`'s numeric methods), JSON whitespace (the pretty printer's line break before `]` / `}`), or
+    nothing (top level) -/
+def SepOK (rest : Bytes) : Prop :=
+  rest = [] ∨ ∃ c tl, rest = c :: tl ∧ (c = 0x2c ∨ c = 0x5d ∨ c = 0x7d ∨ c = 0x22 ∨ Machine.isWs c = true)
+
+omit hext in
+theorem isWs_cases {c : UInt8} (h : Machine.isWs c = true) : c = 0x20 ∨ c = 0x0a ∨ c = 0x09 ∨ c = 0x0d := by
+  simpa [Machine.isWs, Gen.wsBytes] using h
 
 omit hext in
 theorem skipWs_cons {c : UInt8} (hc : Machine.isWs c = false) (tl : Bytes) (pos : Nat) : skipWs (c :: tl) pos = (c :: tl, pos) := by
@@ -161,11 +167,13 @@ theorem sep_facts {rest : Bytes} (h : SepOK rest) :
     (rest = [] ∨ ∃ c tl, rest = c :: tl ∧ (c == 0x2e) = false ∧ (c == 0x65 || c == 0x45) = false) := by
   rcases h with rfl | ⟨c, tl, rfl, hc⟩
   · exact ⟨.inl rfl, .inl rfl⟩
-  · rcases hc with rfl | rfl | rfl | rfl
+  · rcases hc with rfl | rfl | rfl | rfl | hw
     · exact ⟨.inr ⟨_, _, rfl, by decide⟩, .inr ⟨_, _, rfl, by decide, by decide⟩⟩
     · exact ⟨.inr ⟨_, _, rfl, by decide⟩, .inr ⟨_, _, rfl, by decide, by decide⟩⟩
     · exact ⟨.inr ⟨_, _, rfl, by decide⟩, .inr ⟨_, _, rfl, by decide, by decide⟩⟩
     · exact ⟨.inr ⟨_, _, rfl, by decide⟩, .inr ⟨_, _, rfl, by decide, by decide⟩⟩
+    · rcases isWs_cases hw with rfl | rfl | rfl | rfl <;>
+        exact ⟨.inr ⟨_, _, rfl, by decide⟩, .inr ⟨_, _, rfl, by decide, by decide⟩⟩
 
 section
 variable {env : Env} (hflt : env.flt = false)
